@@ -65,21 +65,25 @@ type Ctx struct {
 	Worker *run.Worker
 	Race   bool
 
-	mu            sync.Mutex
-	evals         int64
-	nontrivial    map[[8]byte]struct{}
-	seenCases     map[[8]byte]struct{}
-	samples       []interface{}
-	violations    []violation
-	inconcl       []string
-	known         map[string]int
-	extra         map[string]int64
-	notes         []string
-	counters      proto.Counters
-	hooksSeen     bool
-	start         time.Time
-	exhaustive    bool
-	sampleTrivial bool
+	mu                 sync.Mutex
+	evals              int64
+	nontrivial         map[[8]byte]struct{}
+	seenCases          map[[8]byte]struct{}
+	samples            []interface{}
+	violations         []violation
+	inconcl            []string
+	known              map[string]int
+	extra              map[string]int64
+	notes              []string
+	counters           proto.Counters
+	hooksSeen          bool
+	start              time.Time
+	exhaustive         bool
+	sampleTrivial      bool
+	workerMS           int64
+	genS, runS, judgeS float64
+	slowestMS          int64
+	slowestNote        string
 }
 
 type violation struct {
@@ -150,7 +154,9 @@ func runCheck(ch Check, cx *Ctx) int {
 	}
 
 	for chunk := 0; ; chunk++ {
+		tg := time.Now()
 		items := ch.Generate(cx, chunk)
+		cx.genS += time.Since(tg).Seconds()
 		if items == nil {
 			break
 		}
@@ -164,7 +170,10 @@ func runCheck(ch Check, cx *Ctx) int {
 				cases = append(cases, c)
 			}
 		}
+		tr := time.Now()
 		outs := cx.Pool.Run(cases)
+		cx.runS += time.Since(tr).Seconds()
+		tj := time.Now()
 		// judge in parallel
 		type job struct {
 			it   *Item
@@ -189,6 +198,7 @@ func runCheck(ch Check, cx *Ctx) int {
 			}()
 		}
 		wg.Wait()
+		cx.judgeS += time.Since(tj).Seconds()
 	}
 	return cx.finish(ch, kf)
 }
@@ -215,6 +225,14 @@ func (cx *Ctx) record(kf *knownFindings, it *Item, v Verdict, outs []*run.Outcom
 		if o.Res != nil {
 			if o.Res.Hooks {
 				cx.hooksSeen = true
+			}
+			cx.workerMS += o.Res.WallMS
+			if o.Res.WallMS > cx.slowestMS {
+				cx.slowestMS = o.Res.WallMS
+				cx.slowestNote = firstLine(it.Note)
+				if cx.slowestNote == "" && len(it.Meta) > 0 {
+					cx.slowestNote = firstLine(string(it.Meta))
+				}
 			}
 			if c := o.Res.Counters; c != nil {
 				cx.counters.Steps += c.Steps
@@ -299,6 +317,12 @@ func (cx *Ctx) finish(ch Check, kf *knownFindings) int {
 	}
 	if cx.exhaustive {
 		cov["exhaustive"] = true
+	}
+	cov["phase_seconds"] = map[string]float64{"generate": cx.genS, "execute": cx.runS, "judge": cx.judgeS}
+	cov["worker_time_s"] = float64(cx.workerMS) / 1000
+	cov["slowest_case_ms"] = cx.slowestMS
+	if cx.slowestNote != "" {
+		cov["slowest_case"] = cx.slowestNote
 	}
 	if len(cx.inconcl) > 0 {
 		n := len(cx.inconcl)
